@@ -98,6 +98,23 @@ def cases(tier, seed):
                        'nmax': 40},
                 'n_tuples': int(r.choice([12, 25, 40, 0, 1]) + d),
                 'seed': int(r.randint(1000))})
+  # runs that diverge (small gamma = large steps, on noisy triplets): the objective
+  # is lowest early, so anything that evaluates outside the documented
+  # checkpoints changes the selected weights
+  for i in range(24 if q else 400):
+    r = rng_for('c15-diverge', seed, i)
+    d = int(r.randint(2, 5))
+    out.append({'est': 'SCML',
+                'params': {'basis': '@basis', 'n_basis': 2 * d,
+                           'beta': 1e-5, 'gamma': [5e-3, 1e-3, 1e-4][i % 3],
+                           'batch_size': [5, 10][i % 2], 'max_iter': 100,
+                           'output_iter': [50, 7, 100][(i // 2) % 3],
+                           'verbose': bool(i % 4 != 3)},
+                'ds': {'seed': int(r.randint(2**31 - 1)), 'd': d,
+                       'classes': 2, 'variant': 'plain', 'nmax': 40},
+                'noisy_triplets': True,
+                'n_tuples': int(r.choice([20, 40])),
+                'seed': int(r.randint(1000))})
   # the smallest legal training sets (n_triplets == n_features, + 1): the
   # generated bases are linearly dependent, the learned matrix rank deficient
   for i in range(60 if q else 1500):
@@ -213,6 +230,10 @@ def run_case(spec, j):
   name = spec['est']
   ds = common.dataset(spec['ds'])
   d = ds['d']
+  if spec.get('noisy_triplets'):
+    # triplets that contradict the labels half of the time
+    ds = dict(ds, y=rng_for('c15-noise', spec['ds']['seed']).permutation(
+        np.asarray(ds['y'])))
   f = common.build(spec, ds, use_fast=False)
   p = f.meta['params']
   for k in _cap:
